@@ -31,6 +31,9 @@ type roundCfg struct {
 	Callers    int           `json:"callers"`
 	PerCaller  int           `json:"calls_per_caller"`
 	Mode       string        `json:"mode"` // mixed busy saturated winddown equal
+	// Native: the round runs on the package state that the package's own init() built (pool limit 10); only the
+	// idle timeout is changed. Otherwise the hook builds a fresh state with the pool limit of the round.
+	Native bool `json:"native,omitempty"`
 }
 
 func genRound(seed int64, i int) roundCfg {
@@ -46,7 +49,11 @@ func genRound(seed int64, i int) roundCfg {
 
 func runRound(c roundCfg) (fs []tmon.Finding, nFut int, stats map[string]int64, inconclusive string) {
 	stats = map[string]int64{}
-	timeout.VerifReset(c.Idle, c.MaxWorkers)
+	if c.Native {
+		timeout.VerifSetIdle(c.Idle)
+	} else {
+		timeout.VerifReset(c.Idle, c.MaxWorkers)
+	}
 	mon := tmon.New()
 	var heapErr atomic.Value
 	stop := make(chan struct{})
@@ -219,9 +226,15 @@ func TestChild(t *testing.T) {
 	n := nRounds(run)
 	for i := idx; i < n; i += total {
 		c := genRound(run.Seed(), i)
+		if idx%4 == 0 { // every fourth child never replaces the package state
+			c.Native, c.MaxWorkers = true, 10
+		}
 		fs, nf, stats, inc := runRound(c)
 		res.Evals += int64(nf)
 		res.Counters["rounds"]++
+		if c.Native {
+			res.Counters["rounds_on_the_package_own_initial_state"]++
+		}
 		res.Counters["rounds_"+c.Mode]++
 		for k, v := range stats {
 			if k == "worst_lateness_us" {
